@@ -154,7 +154,14 @@ func (x *Exec) bindLets(e *Env, call *ast.CallExpr, args []Value, hasRecv bool, 
 			}
 		case "recv":
 			if hasRecv {
-				e.st.ghost[lc.Name] = args[0]
+				// the receiver as it was at the time of the call: a pointer receiver is snapshotted
+				if pv, ok := args[0].(PtrV); ok && pv.Alloc != 0 {
+					a := x.alloc()
+					e.st.mem[a] = navigate(x.memCell(e.st, pv.Alloc), pv.Path)
+					e.st.ghost[lc.Name] = PtrV{Alloc: a, Nil: pv.Nil, Typ: pv.Typ}
+				} else {
+					e.st.ghost[lc.Name] = args[0]
+				}
 			}
 		case "ret":
 			if tup, ok := result.(TupleV); ok {
